@@ -727,8 +727,13 @@ Qed.
 Lemma run_undo_like_np : forall w s h m,
   Inv w -> stack_ref_has_parent w -> snd (run_undo_like w s h m) <> XPanic.
 Proof.
-  intros w s h m Hi Hs. unfold run_undo_like. np_open.
-  apply transact_np; [apply Eo|apply Eo| | |frame_auto].
+  intros w s h m Hi Hs. unfold run_undo_like.
+  destruct (open_stack PRequire w) as [op0|] eqn:Eo0; [apply (open_opn _ w _ Hi Hs) in Eo0|np_leaf].
+  (* logging external modifications first either fails (exit 2) or gives a good opened stack *)
+  destruct (log_extmods_first op0) as [op|] eqn:El; [|np_leaf].
+  pose proof (log_extmods_first_ok _ _ (on_ok _ _ Eo0) El) as Hok.
+  pose proof (log_extmods_first_sref _ _ (on_sref _ _ Eo0) El) as Hsr.
+  apply transact_np; [exact Hok|exact Hsr| | |frame_auto].
   - intros W. destruct (w_stack (op_world op)) as [so|]; [|apply W].
     destruct (find_undo_state _ _ _ _) as [st|] eqn:Ef; [|apply W].
     apply find_undo_state_logged in Ef as [so' Hs']. apply reset_wf; [exact W|].
